@@ -1,7 +1,7 @@
 """C10 -- no public call modifies the arrays, tables or models passed to it.
 
 Shape (C): full product  registry entry  x  geometry  x  argument representation
-x  data condition  (x mask form in the thorough tier).  Every entry is a call
+x  data condition  x  mask form.  Every entry is a call
 recipe of ``mcphot.ref.registry`` that builds valid arguments from a small scene.
 *Geometry* is the shape relation between the image handed to the API and the
 box / cutout / aperture / fit box / segment / kernel the implementation works
@@ -11,13 +11,44 @@ cut so that the 9x9 block around source 0 is strictly inside it (base), is the
 whole image, spans every column, spans every row, is larger than the image, or
 the image has a single row / column; Background2D enumerates its box layouts
 (1..3 x 1..3 whole boxes x with/without partial boxes per axis x pad/crop).
-Every frame contains a pixel of every kind a clean-up branch writes to.  Every
-caller-held object (data, error, mask, background / threshold maps, kernels,
-footprints, position arrays, tables, PSF models, apertures, segmentation
-images, NDData, WCS, parents of views) is snapshotted component-wise before the
-first call and compared bit-exactly after *every* step -- the constructor or
-function call, and then each public property / argument-less public method of
-the returned catalog-like object, whether the step returned or raised.
+Every frame contains a pixel of every kind a clean-up branch writes to.
+
+*Mask form*: every mask-like argument (the ``mask`` keyword, coverage masks,
+NDData masks, the source mask of ImageDepth) is handed out as None, as an
+all-False array ("nothing to mask": the boundary value at which "nothing to
+combine: use the caller's array" shortcuts alias) and with True pixels, each as
+an array of its own and as a view of a larger array (representation 'view').
+Mask form 'cond' ties the form to the data condition (None: clean, int;
+all-False: negatives; True pixels: masked, nonfinite*), 'none' / 'empty' force
+None / all-False for every condition.  Quick tier: 'cond' everywhere plus
+'none' and 'empty' for the two conditions with non-finite pixels at the base
+geometry; thorough tier: the full product.
+
+Every caller-held object (data, error, mask, background / threshold maps,
+kernels, footprints, position arrays, label arrays, column lists, plot origins,
+tables, PSF models, apertures, segmentation images, NDData, WCS, files on disk,
+parents of views) is snapshotted component-wise before the first call and
+compared bit-exactly after *every* step, whether the step returned or raised.
+Steps: the constructor or function call, then for the returned catalog-like
+object (``Ctx.members``)
+  1. every public property and every public method callable without arguments;
+  2. every plotting / patch / region member (plot, plot_error, plot_meshes,
+     plot_grid, plot_patches, to_patches, imshow, imshow_map, as_artist,
+     plot_kron_apertures, plot_circular_apertures, make_cmap) with NON-default
+     arguments -- an Axes of a headless Agg figure, ``origin`` = (3.5, -2) handed
+     over as an ndarray, ``scale`` = 1.5, patch keywords -- because with the
+     defaults origin=(0, 0) / scale=1 an in-place shift or scaling of an aliased
+     array is a no-op; every member that needs arguments with one sensible
+     non-default argument set (``registry_members.MEMBER_ARGS``) unless the
+     recipe calls it as an explicit step with the image; methods with optional
+     arguments additionally with their listed non-default variants.
+     During this second pass the object itself is watched too ('self'; its
+     lazily cached values are filled by then: a cached value that changes -- the
+     Kron apertures of a catalog shifted by plotting them -- is a modification);
+  3. documented mutators are called where a recipe says so, with their argument
+     arrays watched (label arrays, extra-property values) and their own object
+     exempt.
+Attribute assignment through the aperture descriptors is a step as well.
 
 Oracle: snapshot(before) == snapshot(after).  No tolerance: the property says
 bit-for-bit (values, dtype, mask, fill_value, nomask-ness, unit, table columns
@@ -42,9 +73,16 @@ RULE = ('full Cartesian product: every registry recipe (one per public entry poi
         'shape relations, listed under coverage.geometry together with the recipes that have the single geometry "base": those '
         'without an image argument, isophote fitting (samples the image point-wise), and sky apertures, Background2D[IDW], '
         'finder-driven / iterative PSF photometry, SourceFinder and ImageDepth, which run the cutout code of a recipe that '
-        'has the axis) x argument representation x data condition (x mask form in the thorough tier); '
-        'each recipe executes its calls as steps (constructor / function call, then every public property and every public '
-        'method callable without arguments of the returned object) and all caller-held objects are compared with their '
+        'has the axis) x argument representation x data condition x mask form (quick: form "cond" -- None / all-False / '
+        'True pixels tied to the condition -- everywhere, plus forms "none" and "empty" x the two conditions with non-finite '
+        'pixels at the base geometry; thorough: full product; every mask-like argument incl. coverage masks, NDData masks and '
+        'the ImageDepth source mask follows the form, ImageDepth enumerates {source mask, all-False, None} itself in every run); '
+        'each recipe executes its calls as steps: constructor / function call, then for the returned object every public '
+        'property and every public method callable without arguments, then (second pass, the object itself watched as well) '
+        'every plotting / patch member with non-default arguments (Axes, origin=(3.5, -2) as a caller-held ndarray, scale=1.5, '
+        'patch keywords) and every member that needs arguments with a non-default argument set (coverage.'
+        'members_of_catalog_like_classes lists them and what is left: documented mutators only), mutators with their '
+        'argument arrays watched; all caller-held objects are compared with their '
         'snapshot after every step; one evaluation = one executed step; a step is non-trivial when it ran to completion '
         '(did not raise) -- steps that raise are still checked; distinct = distinct (step label, representation, condition, '
         'mask form, geometry)')
@@ -56,7 +94,18 @@ ASSUMPTIONS = ['numpy / astropy containers report their own state faithfully (to
                'representations listed) is not reached',
                'geometries that matter only for Fortran-ordered data (registry.GEOMS_THOROUGH_ONLY) are enumerated in the thorough '
                'tier only, where the Fortran-ordered representation is',
-               'plotting members, file loaders, remote data sets are outside the property (listed under coverage.uncovered)']
+               'one non-default argument set per plotting member / member with arguments (origin (3.5, -2), scale 1.5, the '
+               'listed keywords): an aliasing that needs another value of those arguments (e.g. a negative scale, an origin '
+               'given as a list) is not reached; plotting runs on the headless Agg backend, what is drawn is not inspected',
+               'the second pass watches the object itself only while it runs (after its caches are filled); during the first '
+               'pass (property reads, argument-less methods such as normalize()) only the objects the caller passed in are watched',
+               'quick tier: mask forms "none" / "empty" are combined with the non-finite conditions at the base geometry only',
+               'remote data loaders (photutils.datasets.load_*) need the network and are not called (coverage.uncovered); '
+               'abstract base classes, mixins and the aperture descriptor classes are exercised through a concrete class '
+               '(coverage.covered_through_concrete_class, verified member by member)']
+
+
+PLOT_STEP = re.compile(r'\.(%s)' % '|'.join(R.PLOT_PREFIXES))
 
 
 def reps(tier):
@@ -65,6 +114,13 @@ def reps(tier):
 
 def maskforms(tier):
     return R.MASKFORMS if tier == 'thorough' else R.MASKFORMS[:1]
+
+
+# Quick tier: besides mask form 'cond' (which hands every mask argument out as None [clean, int], as an all-False array
+# [negatives] and with True pixels [masked, nonfinite*]), the two combinations in which a clean-up *write* (non-finite
+# pixels present) meets a mask that is absent or all-False -- "nothing to combine with: use the caller's array itself"
+# shortcuts alias exactly there.  Base geometry only; the thorough tier has the full product.
+QUICK_EXTRA_MASKFORMS = tuple((mf, cond) for mf in ('none', 'empty') for cond in ('nonfinite', 'nonfinite_error'))
 
 
 def geoms(r, tier):
@@ -87,6 +143,14 @@ def combos(r, tier):
                 for cond in cc:
                     if mf == 'none' and cond in ('clean', 'int'):
                         continue           # identical to mask form 'cond' (the mask is None there already)
+                    if mf == 'empty' and cond == 'negatives':
+                        continue           # identical to mask form 'cond' (the mask is all-False there already)
+                    out.append((mf, rep, cond, geom))
+        if tier != 'thorough' and geom == 'base' and 'cond' in r.axes:
+            for mf, cond in QUICK_EXTRA_MASKFORMS:
+                for rep in rr:
+                    if rep == 'nddata' and not r.nddata:
+                        continue
                     out.append((mf, rep, cond, geom))
     return out
 
@@ -109,7 +173,7 @@ def site_of(label, arg):
 
 
 def run_combo(acc, name, rep, cond, mf, seed, sample=False, geom='base'):
-    c = R.run_recipe(name, rep, cond, seed, maskform=mf, geom=geom)
+    c = R.run_recipe(name, rep, cond, seed, maskform=mf, geom=geom, extras=True)
     if c is None:
         acc.skip('combination not applicable')
         return None
@@ -122,6 +186,9 @@ def run_combo(acc, name, rep, cond, mf, seed, sample=False, geom='base'):
             acc.counters['steps_that_raised'] += 1
     acc.counters['recipe_runs'] += 1
     acc.counters['watched_objects'] += len(c.held)
+    for _, kind, is_view in c.masks_out:
+        acc.counters[f'mask arguments handed out: {kind}{", view of a larger array" if is_view else ""}'] += 1
+    acc.counters['plotting / patch steps'] += sum(1 for lab, _ in c.steps if PLOT_STEP.search(lab) is not None)
     for label, arg, comps in c.changes:
         acc.violation('input-mutated', site_of(label, arg), dict(case0, step=label, arg=arg),
                       observed=f'{arg} changed in: {comps}', expected='bit-for-bit unchanged',
@@ -170,18 +237,27 @@ def describe(tier, seed):
     cov = R.coverage()
     members = {}
     import importlib
+    from ..ref import registry_members as M
     for path in ('photutils.aperture.ApertureStats', 'photutils.background.Background2D', 'photutils.segmentation.SourceCatalog',
                  'photutils.segmentation.SegmentationImage', 'photutils.segmentation.Segment', 'photutils.profiles.RadialProfile',
                  'photutils.profiles.CurveOfGrowth', 'photutils.isophote.Isophote', 'photutils.isophote.IsophoteList',
                  'photutils.psf.EPSFStar', 'photutils.psf.EPSFStars', 'photutils.aperture.CircularAperture',
-                 'photutils.aperture.ApertureMask', 'photutils.utils.cutouts.CutoutImage'):
+                 'photutils.aperture.SkyCircularAperture', 'photutils.aperture.BoundingBox',
+                 'photutils.aperture.ApertureMask', 'photutils.utils.cutouts.CutoutImage', 'photutils.background.MeanBackground',
+                 'photutils.background.StdBackgroundRMS', 'photutils.detection.DAOStarFinder', 'photutils.isophote.EllipseGeometry',
+                 'photutils.psf.STDPSFGrid'):
         mod, cls = path.rsplit('.', 1)
         k = getattr(importlib.import_module(mod), cls)
         kinds = {}
         for n, kind in R.member_names(k):
             kinds.setdefault(kind, []).append(n)
-        members[cls] = {'evaluated': len(kinds.get('property', [])) + len(kinds.get('method0', [])),
-                        'not_evaluated': {kk: v for kk, v in kinds.items() if kk not in ('property', 'method0')}}
+        with_args = {n: [v[0] for v in M.argument_sets(k, n, kind)] for n, kind in R.member_names(k) if M.argument_sets(k, n, kind)}
+        explicit = [n for n, kind in R.member_names(k) if kind == 'method-needs-args' and not M.argument_sets(k, n, kind)
+                    and M._lookup(M.EXPLICIT, k, n)]
+        members[cls] = {'evaluated_without_arguments': len(kinds.get('property', [])) + len(kinds.get('method0', [])),
+                        'called_with_non_default_arguments (member: argument sets)': with_args,
+                        'called_by_explicit_recipe_steps': explicit,
+                        'not_evaluated': M.not_evaluated(k)}
     frames = {}
     for g, region in R.FRAMES.items():
         c = R.Ctx('ndarray', 'clean', seed, geom=g)
@@ -195,7 +271,10 @@ def describe(tier, seed):
             by_alphabet.setdefault(' | '.join(gg) if len(gg) < 12 else f'base + {len(gg) - 1} Background2D box layouts', []).append(r.name)
     from ..ref import registry_recipes as RR
     return {'alphabet': {'recipes': len(R.RECIPES), 'representations': list(reps(tier)), 'conditions': list(R.CONDITIONS),
-                         'mask_forms': list(maskforms(tier)),
+                         'mask_forms': list(maskforms(tier)) + ([f'{mf} x {cond} (base geometry)' for mf, cond in QUICK_EXTRA_MASKFORMS]
+                                                                 if tier != 'thorough' else []),
+                         'mask_argument_values': ['None', 'all-False array', 'array with True pixels',
+                                                  'each also as a view of a larger array (representation "view")'],
                          'geometries': [g for g in R.FRAMES if tier == 'thorough' or g not in R.GEOMS_THOROUGH_ONLY]
                          + [g for g in list(RR.CUTS) + ['blend'] if g not in R.FRAMES]
                          + [f'{len(RR.BKG_LAYOUTS)} Background2D box layouts (coverage.geometry)']},
@@ -206,7 +285,9 @@ def describe(tier, seed):
                          'recipes_with_base_geometry_only': [r.name for r in R.RECIPES.values() if len(r.geoms) == 1]},
             'public_callables': cov['public_callables'],
             'covered': len(cov['covered']),
+            'covered_through_concrete_class': cov['covered_through_concrete_class'],
             'uncovered': cov['uncovered'],
+            'plot_arguments': {'origin': [3.5, -2.0], 'scale': M.SCALE, 'patch_keywords': M.PATCH_KW, 'backend': 'Agg'},
             'unclassified_public_callables': cov['unclassified'],
             'stale_registry_names': cov['stale_registry_names'],
             'members_of_catalog_like_classes': members}
